@@ -1549,6 +1549,43 @@ mod tests {
     }
 
     #[test]
+    fn a_lock_holder_that_runs_while_another_task_unwinds_does_not_poison_its_lock() {
+        // all simulated threads share one OS thread and std's panic count: the worker below is
+        // preempted between taking and releasing the lock, main panics, main's destructor has to
+        // wait for the worker, the worker releases while main's panic is in flight - and must not
+        // poison the lock by that (seeded m50 under a listing error aborted the process this way:
+        // the destructor's `lock().unwrap()` panicked a second time)
+        struct TakesLock<'a>(&'a sstd::sync::Mutex<u32>);
+        impl Drop for TakesLock<'_> {
+            fn drop(&mut self) {
+                *self.0.lock().unwrap() += 10;
+            }
+        }
+        for sched in [vec![], vec![Decision::Sched { at: 2, task: 1 }], vec![Decision::Sched { at: 3, task: 1 }], vec![Decision::Sched { at: 4, task: 1 }]] {
+            let (w, r) = simulate(&sched, || {
+                let m = sstd::sync::Mutex::new(0u32);
+                let r = std::panic::catch_unwind(std::panic::AssertUnwindSafe(|| {
+                    sstd::thread::scope(|s| {
+                        s.spawn(|| {
+                            for _ in 0..3 {
+                                *m.lock().unwrap() += 1;
+                            }
+                        });
+                        let _t = TakesLock(&m);
+                        sstd::thread::yield_now();
+                        panic!("main fails");
+                    })
+                }));
+                assert!(r.is_err());
+                let v = *m.lock().expect("the lock is not poisoned: nobody panicked while holding it");
+                crate::seams::emit_str(&format!("{}", v));
+            });
+            assert!(r.is_ok(), "schedule {:?}", sched);
+            assert_eq!(w.out, "13", "schedule {:?}", sched);
+        }
+    }
+
+    #[test]
     fn deadlock_is_reported() {
         let (_w, r) = simulate(&[], || {
             let (_tx, rx) = sstd::sync::mpsc::channel::<u32>();
